@@ -52,6 +52,12 @@ func (h hop) String() string {
 		return fmt.Sprintf("t%d.node%d.Add(%q)", h.T, h.Node, h.Name)
 	case "M":
 		return "OutputFromMarkdown(other doc)"
+	case "Q":
+		return fmt.Sprintf("OutputProgrammably(t%d)", h.T)
+	case "Z":
+		return fmt.Sprintf("WalkProgrammably+WalkIterProgrammably(t%d)", h.T)
+	case "U":
+		return "NewRoot(unrelated).Add(u)"
 	}
 	return fmt.Sprintf("%s(t%d)", h.K, h.T)
 }
@@ -174,6 +180,53 @@ func (w *c13World) observe(k string, t int) (got, want string, pan string) {
 		}
 		sort.Strings(want)
 		return fmt.Sprintf("err=%v created:%s", err, fsx.Diff(before, after)), fmt.Sprintf("err=<nil> created:%s", strings.Join(want, " ")), p
+	case "PK":
+		// the real Mkdir with the massive option (single root)
+		j := fsx.NewJail("c13pk")
+		defer j.Remove()
+		before := fsx.Snapshot(j.Root)
+		var err error
+		p := guardMaybeMassive(true, func() { err = gtree.MkdirFromRoot(root, gtree.WithTargetDir(j.Target), gtree.WithMassive(context.Background())) })
+		after := fsx.Snapshot(j.Root)
+		if hasInvalidName(m) {
+			return fmt.Sprintf("err!=nil:%v", err != nil), `err!=nil:true`, p
+		}
+		want := []string{}
+		for pth := range model.Plan(model.Forest{m}, nil) {
+			want = append(want, "+p/q/target/"+pth+"(d)")
+		}
+		sort.Strings(want)
+		return fmt.Sprintf("err=%v created:%s", err, fsx.Diff(before, after)), fmt.Sprintf("err=<nil> created:%s", strings.Join(want, " ")), p
+	case "PW":
+		// walk with the massive option (single root: the order is fixed)
+		var rows []string
+		var err error
+		p := guardMaybeMassive(true, func() {
+			err = gtree.WalkFromRoot(root, func(wn *gtree.WalkerNode) error {
+				rows = append(rows, fmt.Sprintf("%s|%s|%d|%v", wn.Row(), wn.Path(), wn.Level(), wn.HasChild()))
+				return nil
+			}, gtree.WithMassive(nil))
+		})
+		var wr []string
+		for _, r := range model.Rows(m, model.DefaultFmt) {
+			wr = append(wr, fmt.Sprintf("%s|%s|%d|%v", r.Line, r.Path, r.Level, r.HasChild))
+		}
+		return fmt.Sprintf("%q err=%v", rows, err), fmt.Sprintf("%q err=<nil>", wr), p
+	case "PD":
+		// dry run with the massive option
+		var buf bytes.Buffer
+		var err error
+		old := color.Output
+		color.Output = &buf
+		p := guardMaybeMassive(true, func() {
+			err = gtree.MkdirFromRoot(root, gtree.WithDryRun(), gtree.WithFileExtensions([]string{"b"}), gtree.WithMassive(context.Background()))
+		})
+		color.Output = old
+		d, f := model.Counts(m, []string{"b"})
+		if hasInvalidName(m) {
+			return fmt.Sprintf("err!=nil:%v", err != nil), `err!=nil:true`, p
+		}
+		return fmt.Sprintf("%q err=%v", model.NormSummary(buf.String()), err), fmt.Sprintf("%q err=<nil>", model.NormSummary(model.RenderRoot(m, model.DefaultFmt)+fmt.Sprintf("\n%d directories, %d files\n", d, f))), p
 	case "V":
 		// verify against an empty directory: always "root missing" for valid names, a name error otherwise; never nil
 		if c13Jail == nil {
@@ -210,6 +263,17 @@ func (w *c13World) apply(h hop) {
 		sut.Output(c13MdDoc)
 	case "S":
 		w.held[h.T] = gtree.WalkIterFromRoot(w.real[h.T][0])
+	case "Q":
+		// the deprecated aliases are part of the API: calling them is just another call
+		var buf bytes.Buffer
+		gtree.OutputProgrammably(&buf, w.real[h.T][0])
+	case "Z":
+		gtree.WalkProgrammably(w.real[h.T][0], func(*gtree.WalkerNode) error { return nil })
+		for range gtree.WalkIterProgrammably(w.real[h.T][0]) {
+		}
+	case "U":
+		// an unrelated root (and a child) made in between
+		gtree.NewRoot("unrelated").Add("u")
 	case "X":
 		// a real Mkdir with an extension list in a throw-away directory: it must leave the caller's tree as it was
 		j := fsx.NewJail("c13x")
@@ -256,6 +320,110 @@ func c13Run(c *rep.Ctx, hist []hop) {
 	if last.K != "M" {
 		if got2, _, _ := w.observe(last.K, last.T); got2 != got {
 			c.Violation("C13|repeat-differs|"+last.K, fmt.Sprintf("history: %v\nfirst:  %s\nsecond: %s", hist, got, got2), len(hist), rp)
+		}
+	}
+}
+
+// c13Repeat: one kind of call repeated R times (failing ones above all: a resource taken and not given back on an error
+// path adds up), then every observation on a fresh tree must still be what the tree alone predicts.
+func c13Repeat(c *rep.Ctx) {
+	reps := []int{1, 12}
+	if c.Thorough() {
+		reps = []int{1, 5, 12, 40}
+	}
+	c.Bound("repetitions", fmt.Sprint(reps))
+	bad := func() *gtree.Node { r := gtree.NewRoot("r"); r.Add("x/y").Add("k"); r.Add("ok"); return r }
+	good := func() *gtree.Node { r := gtree.NewRoot("r"); r.Add("a").Add("b"); r.Add("b"); return r }
+	const badDoc = "- r\n  - x/y\n- s\n  - ..\n"
+	const malformed = "- r\n  -\n- s\n      - deep\n"
+	const okDoc = "- r\n  - a\n- s\n  - b\n"
+	ms := func() gtree.Option { return gtree.WithMassive(context.Background()) }
+	cancelled := func() gtree.Option {
+		ctx, cancel := context.WithCancel(context.Background())
+		cancel()
+		return gtree.WithMassive(ctx)
+	}
+	cbErr := func(*gtree.WalkerNode) error { return errStop }
+	tmp := func(f func(target string)) {
+		j := fsx.NewJail("c13rep")
+		f(j.Target)
+		j.Remove()
+	}
+	calls := []struct {
+		name    string
+		massive bool
+		f       func()
+	}{
+		{"massive MkdirFromRoot with an invalid name", true, func() { tmp(func(t string) { gtree.MkdirFromRoot(bad(), gtree.WithTargetDir(t), ms()) }) }},
+		{"massive VerifyFromRoot with an invalid name", true, func() { tmp(func(t string) { gtree.VerifyFromRoot(bad(), gtree.WithTargetDir(t), ms()) }) }},
+		{"massive dry run with an invalid name", true, func() { gtree.MkdirFromRoot(bad(), gtree.WithDryRun(), ms()) }},
+		{"massive MkdirFromMarkdown with invalid names", true, func() {
+			tmp(func(t string) { gtree.MkdirFromMarkdown(strings.NewReader(badDoc), gtree.WithTargetDir(t), ms()) })
+		}},
+		{"massive VerifyFromMarkdown of missing roots", true, func() {
+			tmp(func(t string) { gtree.VerifyFromMarkdown(strings.NewReader(okDoc), gtree.WithTargetDir(t), ms()) })
+		}},
+		{"massive MkdirFromMarkdown into existing roots", true, func() {
+			tmp(func(t string) {
+				fsx.Populate(t, map[string]byte{"r": 'd', "s": 'f'})
+				gtree.MkdirFromMarkdown(strings.NewReader(okDoc), gtree.WithTargetDir(t), ms())
+			})
+		}},
+		{"massive OutputFromMarkdown of a malformed document", true, func() { gtree.OutputFromMarkdown(&bytes.Buffer{}, strings.NewReader(malformed), ms()) }},
+		{"massive OutputFromMarkdown to a failing writer", true, func() { gtree.OutputFromMarkdown(brokenWriter{}, strings.NewReader(okDoc), ms()) }},
+		{"massive JSON output to a failing writer", true, func() { gtree.OutputFromRoot(brokenWriter{}, good(), ms(), gtree.WithEncodeJSON()) }},
+		{"massive WalkFromMarkdown with a failing callback", true, func() { gtree.WalkFromMarkdown(strings.NewReader(okDoc+okDoc), cbErr, ms()) }},
+		{"massive WalkFromRoot with a failing callback", true, func() { gtree.WalkFromRoot(good(), cbErr, ms()) }},
+		{"massive output under a cancelled context", true, func() { gtree.OutputFromMarkdown(&bytes.Buffer{}, strings.NewReader(okDoc), cancelled()) }},
+		{"massive output of an empty document", true, func() { gtree.OutputFromMarkdown(&bytes.Buffer{}, strings.NewReader(""), ms()) }},
+		{"massive output, healthy", true, func() { gtree.OutputFromMarkdown(&bytes.Buffer{}, strings.NewReader(okDoc), ms()) }},
+		{"MkdirFromRoot with an invalid name", false, func() { tmp(func(t string) { gtree.MkdirFromRoot(bad(), gtree.WithTargetDir(t)) }) }},
+		{"MkdirFromMarkdown with invalid names", false, func() {
+			tmp(func(t string) { gtree.MkdirFromMarkdown(strings.NewReader(badDoc), gtree.WithTargetDir(t)) })
+		}},
+		{"OutputFromMarkdown of a malformed document", false, func() { gtree.OutputFromMarkdown(&bytes.Buffer{}, strings.NewReader(malformed)) }},
+		{"OutputFromMarkdown to a failing writer", false, func() { gtree.OutputFromMarkdown(brokenWriter{}, strings.NewReader(okDoc)) }},
+		{"YAML output to a failing writer", false, func() { gtree.OutputFromRoot(brokenWriter{}, good(), gtree.WithEncodeYAML()) }},
+		{"WalkFromRoot with a failing callback", false, func() { gtree.WalkFromRoot(good(), cbErr) }},
+		{"WalkIterFromRoot left early", false, func() {
+			for range gtree.WalkIterFromRoot(good()) {
+				break
+			}
+		}},
+		{"OutputFromRoot of a non-root node", false, func() { gtree.OutputFromRoot(&bytes.Buffer{}, good().Add("z")) }},
+	}
+	hist := []hop{{K: "N", T: 0, Name: "r"}, {K: "A", T: 0, Node: 0, Name: "a"}, {K: "A", T: 0, Node: 1, Name: "b"}, {K: "A", T: 0, Node: 0, Name: "b"}}
+	for _, cl := range calls {
+		for _, R := range reps {
+			if !c.Take() || c.Expired() {
+				continue
+			}
+			c.StateN(1)
+			c.Inc("repetition_histories")
+			pan := ""
+			for i := 0; i < R && pan == ""; i++ {
+				pan = guardMaybeMassive(cl.massive, cl.f)
+			}
+			desc := fmt.Sprintf("%d x %s, then a fresh tree r(a(b),b)", R, cl.name)
+			if pan != "" {
+				c.Violation("C13|repeated-call-crashed-or-hung", desc+": "+pan, R, nil)
+				continue
+			}
+			w := &c13World{}
+			for _, h := range hist {
+				w.apply(h)
+			}
+			for _, k := range []string{"T", "W", "J", "Y", "D", "F", "K", "V", "P", "PK", "PW", "PD"} {
+				got, want, p := w.observe(k, 0)
+				c.Eval()
+				if p != "" || got != want {
+					c.Violation("C13|result-depends-on-earlier-calls|"+k, fmt.Sprintf("%s, observation %s:\n got: %s %s\nwant: %s", desc, k, got, p, want), R, nil)
+				}
+			}
+			out, err, p := sut.Output(c13MdDoc, ms())
+			if p != "" || err != nil || out != c13MdWant {
+				c.Violation("C13|result-depends-on-earlier-calls|massive-markdown", fmt.Sprintf("%s: massive OutputFromMarkdown gives %q err=%v %s", desc, out, err, p), R, nil)
+			}
 		}
 	}
 }
@@ -371,6 +539,12 @@ func init() {
 				if len(hist) <= 4 && t == 0 {
 					rec(append(hist, hop{K: "X", T: t}), s, L)
 				}
+				if len(hist) <= 4 && len(hist) >= 2 && t == 0 {
+					rec(append(hist, hop{K: "Q", T: t}), s, L)
+				}
+				if len(hist) == 3 && t == 0 {
+					rec(append(hist, hop{K: "Z", T: t}), s, L)
+				}
 				if !s.held[t] && t == 0 {
 					s.held[t] = true
 					rec(append(hist, hop{K: "S", T: t}), s, L)
@@ -380,10 +554,14 @@ func init() {
 			if len(hist) > 0 {
 				rec(append(hist, hop{K: "M"}), s, L)
 			}
+			if len(hist) >= 2 && len(hist) <= 4 && hist[len(hist)-1].K != "U" {
+				rec(append(hist, hop{K: "U"}), s, L)
+			}
 		}
 		for L := 2; L <= maxL && !c.Expired(); L++ {
 			rec(nil, &st{}, L)
 		}
+		c13Repeat(c)
 		c.R.Nontrivial = c.R.States
 		if c13Jail != nil {
 			c13Jail.Remove()
